@@ -5,18 +5,31 @@ from lib.props.meta_common import ASSUME_COMMON
 ID = "C13"
 META = dict(
     LEVEL="exploration",
-    RULE=("(a) for each of the eight table classes, random programs of 10-200 operations (add_row, append, int/slice/"
-          "mask/id-array indexing, row assignment, truncate, keep_rows, clear, set_columns, append_columns, packset_*, "
-          "column and offset assignment, drop_metadata, copy, iteration, ==, plus refused variants of each) with "
-          "arbitrary row values (NaN/inf/-0.0, ids around the table size, empty and > 64 KiB ragged entries, 1100-row "
-          "bulk appends, max_rows_increment 0/1/2/7, raw or JSON-schema metadata); after every operation the raw "
-          "columns are compared bit-exactly with a Python list of row tuples. (b) generated tree sequences driven by "
-          "random programs over every public TreeSequence/Tree/Variant name from dir(), fingerprinted (all columns of "
-          "dump_tables() + all array properties) after every call, with every numpy array found in any result probed "
-          "for writeability/aliasing. A case is distinct by (table class, operation sequence, final rows) resp. the "
-          "tree sequence's rows; a table case is non-trivial with >= 5 completed operations, a ts case with >= 1 edge."),
+    RULE=("(a) for each of the eight table classes, free-standing (max_rows_increment 0/1/2/7) or inside a TableCollection "
+          "whose seven other tables must stay untouched, random programs of 10-200 operations (add_row keyword / "
+          "positional / numpy-scalar forms, append, int / slice / mask / id-array / range indexing, row assignment from "
+          "another table, the same table, a tree sequence's row objects, another schema, truncate, keep_rows, clear / "
+          "reset, set_columns, append_columns in list / strided / read-only / byte-swapped / narrower-dtype forms, "
+          "packset_*, column, offset and schema assignment, drop_metadata, replace_with, copy, pickle / copy.copy / "
+          "deepcopy, collection copy / pickle / fromdict / clear, low-level extend / get_row, pack_* / unpack_*, "
+          "iteration, ==, equals(ignore_*), assert_equals, plus refused variants of each) with arbitrary row values "
+          "(NaN/inf/-0.0, ids around the table size, empty and > 64 KiB ragged entries, 1100-row bulk appends) and raw, "
+          "JSON-schema or struct-schema metadata; a fixed share of the programs (3 in 44) brings the row count to "
+          "exactly 1024/2048 or one ragged column to exactly 64/128 KiB and steps over the boundary one row at a "
+          "time; after every operation the raw columns are compared bit-exactly with a Python list of row tuples. "
+          "(b) generated (arbitrary, struct-metadata, or msprime-simulated) tree sequences driven by random programs "
+          "over every public TreeSequence/Tree/Variant name from dir() plus pickle / copy / str / == / attribute "
+          "assignment / mutation of the source TableCollection / multi-hop reads, fingerprinted (all columns of "
+          "dump_tables() + all array properties; trees, samples, individual nodes and genotypes as derived state) "
+          "after every call, with every numpy array found in any result probed for writeability / aliasing "
+          "(including setflags(write=True)) and every mutable object found (row objects, lists, dicts, tables, the "
+          "reference sequence) modified. A case is distinct by (table class, operation sequence, final rows) resp. "
+          "the tree sequence's rows; a table case is non-trivial with >= 5 completed operations, a ts case with >= 1 "
+          "edge."),
     REQUIRED=["verify", "refusal", "row-object", "setitem-foreign-schema", "keep_rows-idmap", "iteration", "eq", "fingerprint", "call",
-              "array-readonly", "array-writeable-probe", "tables-mutation-probe", "tree-probe", "variant-probe"],
+              "array-readonly", "array-writeable-probe", "tables-mutation-probe", "tree-probe", "variant-probe",
+              "tc-others-unchanged", "same-table-row", "ts-row-object", "unpack", "pickle", "extend-ll",
+              "boundary-crossing", "handed-out-mutation", "deep-fingerprint", "source-tables-mutation"],
     ASSUMPTIONS=ASSUME_COMMON + [
         "arrays are probed through the numpy interface only; writes through ctypes or the buffer protocol of "
         "read-only arrays are not attempted",
